@@ -18,7 +18,7 @@ func (e *Engine) verifyFunc(blk *Block, prop string) (fv *FuncVer, err error) {
 	}
 	bv := strings.HasPrefix(blk.Flags["mode"], "bv")
 	fv = &FuncVer{eng: e, ctx: NewCtx(bv), fn: fn, block: blk, obls: map[string]*Obligation{}, maxPaths: 4096,
-		loopInfos: map[*ssa.Function]*loopAnalysis{}, prop: prop, trustedCalls: map[string]bool{}, heapSorts: map[string]*Sort{}, stepBudget: 4_000_000}
+		loopInfos: map[*ssa.Function]*loopAnalysis{}, prop: prop, trustedCalls: map[string]bool{}, heapSorts: map[string]*Sort{}, heapTypes: map[string]types.Type{}, stepBudget: 4_000_000}
 	if mp, ok := blk.Flags["maxpaths"]; ok {
 		if n, err := strconv.Atoi(mp); err == nil {
 			fv.maxPaths = n
@@ -146,6 +146,9 @@ func (fv *FuncVer) checkEnsures(st *State, res []Val) {
 		if label == "" {
 			label = fmt.Sprintf("#%d", i+1)
 		}
+		if strings.HasPrefix(label, "assumed:") {
+			continue // assumed at call sites, not proved here (listed in the evidence)
+		}
 		g := fv.evalBool(env, cl.Expr)
 		fv.oblige(st, "ensures["+label+"]", "", token.NoPos, g, "postcondition: "+cl.Text)
 	}
@@ -164,7 +167,7 @@ func (fv *FuncVer) checkEnsures(st *State, res []Val) {
 // entry, every ghost and every map outside that clause exactly as it was (frame obligations).
 func (fv *FuncVer) checkFrame(st *State, env *SpecEnv) {
 	as, ok := fv.block.Flags["assigns"]
-	if !ok {
+	if !ok || fv.block.Flags["frame"] == "assumed" {
 		return
 	}
 	allowed := map[string]bool{}
